@@ -1,5 +1,5 @@
 (* C02 - interoperability with an independent implementation (theorems added below). *)
-From WR Require Import Lib.Bits Mpq.Crypt Mpq.MpqRef Proofs.Crypt_proofs.
+From WR Require Import Lib.Bits Mpq.Crypt Mpq.MpqRef Proofs.Crypt_proofs Mpq.Archive Mpq.MpqRef Proofs.HashTable_proofs Proofs.Build_proofs Proofs.Interop_proofs Proofs.Interop_example.
 Open Scope N_scope.
 
 (* the library's cipher and the reference cipher agree on whole dwords for every non-zero key *)
@@ -24,3 +24,32 @@ Theorem C02_tail_bytes_differ_refuted :
   encrypt_data [1; 2; 3; 4; 5] 4660 <> r_crypt true [1; 2; 3; 4; 5] 4660.
 Proof. exact interop_tail_differs. Qed.
 Print Assumptions C02_tail_bytes_differ_refuted.
+
+(* whatever Archive::open accepts, the reference reader (written from the published format) opens to the same tables *)
+Theorem C02_ref_open_of_open : forall bs a, open bs = Some a -> ref_open bs = Some (as_ref a).
+Proof. exact ref_open_of_open. Qed.
+Print Assumptions C02_ref_open_of_open.
+
+(* the reference finds exactly the block entry the library finds *)
+Theorem C02_ref_find_equiv : forall (a : archive) (k : N) (name : list N),
+    Forall hplain (a_hash a) -> lenN (a_hash a) = 2 ^ k -> wf_bytes name ->
+    ref_find (as_ref a) name = option_map bentry_words (find_block a name).
+Proof. exact ref_find_equiv. Qed.
+Print Assumptions C02_ref_find_equiv.
+
+(* interoperability in the direction library -> reference: every V1/V2 archive the builder writes is opened by the
+   reference reader, and every unencrypted file of it (single unit, plain sector run, compressed sectors with or
+   without checksum table; the listfile included) is read bit-identically *)
+Theorem C02_library_archive_read_by_reference :
+  forall (compress : N -> list N -> option (list N)) (decompress : N -> list N -> N -> option (list N))
+         (c : cfg) (files : list file_spec) (bytes : list N),
+    (c_version c = 1 \/ c_version c = 2) -> c_shift c < 65536 ->
+    build compress c files = BOk bytes -> lenN bytes < M32 ->
+    Forall (file_ok compress decompress (sector_size (c_shift c))) (pending c files) ->
+    NoDup (map hkey (pending c files)) ->
+    (c_attrs c = 1 -> ~ In (hash_string s_attributes ht_name_a, hash_string s_attributes ht_name_b) (map hkey (pending c files))) ->
+    exists ra, ref_open bytes = Some ra /\
+               forall f, In f (pending c files) -> f_enc f = 0 -> wf_bytes (f_name f) ->
+                         ref_read decompress ra (f_name f) = Some (f_data f).
+Proof. exact library_archive_read_by_reference. Qed.
+Print Assumptions C02_library_archive_read_by_reference.
